@@ -64,6 +64,7 @@ type parsed struct {
 
 // runParse: text -> (model case, implementation observation)
 func runParse(text, form string) (*parsed, string) {
+	noteCase("C03", text)
 	r := &parsed{text: text, form: form}
 	a, derr := decodeText(text)
 	if derr != nil {
